@@ -297,43 +297,34 @@ Proof.
     cbn [fst ms_set ms_unit]. apply ms_event_fields.
 Qed.
 
-(* the values swapped out by the builder's inserts (none unless the same component type is attached twice) *)
-Fixpoint comps_rets (e : senv) (av : aview) (ent : entity) (cs : comps) : list N :=
-  match cs with
-  | [] => []
-  | (sid, v) :: cs' =>
-      match NM.find sid (se_stores e) with
-      | None => comps_rets (env_cx e (cx_drop (cx_fail (se_cx e)) v)) av ent cs'
-      | Some ms =>
-          let '(ms1, r, c1) := st_insert ms av ent v (se_cx e) in
-          let c2 := match r with InsErr _ => cx_fail c1 | _ => c1 end in
-          (match r with InsOld t => [fst t] | _ => [] end) ++ comps_rets (env_put e sid ms1 c2) av ent cs'
-      end
-  end.
-
+(* attaching components to an entity being built: every value is moved in; a value swapped out because the same
+   component type is attached twice is destroyed by the builder *)
 Lemma insert_comps_ledger cs : forall e av ent, plain_env e ->
   (forall sid v, In (sid, v) cs -> NM.find sid (se_stores e) <> None) ->
-  estep_ok e (env_insert_comps e av ent cs) (comps_ins e cs) (comps_rets e av ent cs).
+  estep_ok e (env_insert_comps e av ent cs) (comps_ins e cs) [].
 Proof.
-  induction cs as [|[sid v] cs IH]; intros e av ent HP Hreg; cbn [env_insert_comps comps_ins comps_rets flat_map fst snd].
+  induction cs as [|[sid v] cs IH]; intros e av ent HP Hreg; cbn [env_insert_comps comps_ins flat_map fst snd].
   - apply estep_refl. exact HP.
   - destruct (NM.find sid (se_stores e)) as [ms|] eqn:Es; [|exfalso; apply (Hreg sid v (or_introl eq_refl)); exact Es].
     destruct (HP _ _ Es) as [m HL].
     pose proof (insert_conserves ms m av ent v (se_cx e) HL) as X. pose proof (insert_unit ms av ent v (se_cx e)) as U.
     destruct (st_insert ms av ent v (se_cx e)) as [[ms1 r] c1]. cbn [fst] in U. destruct X as [m1 [L1 [_ C1]]].
-    set (c2 := match r with InsErr _ => cx_fail c1 | _ => c1 end).
-    assert (conserves m m1 [fst (tnorm ms v)] (match r with InsOld t => [fst t] | _ => [] end) (se_cx e) c2) as C2.
-    { destruct C1 as [d [D P]]. exists d. split; [subst c2; destruct r; exact D | exact P]. }
+    set (c2 := match r with InsErr _ => cx_fail c1 | InsOld t => cx_drop c1 t | _ => c1 end).
+    assert (conserves m m1 [fst (tnorm ms v)] [] (se_cx e) c2) as C2.
+    { destruct C1 as [d [D P]]. destruct r as [|t|g]; subst c2.
+      - exists d. split; [exact D|exact P].
+      - exists (fst t :: d). split; [cbn [cx_drop cx_drops]; rewrite D; reflexivity|exact P].
+      - exists d. split; [exact D|exact P]. }
     pose proof (estep_put e sid ms m ms1 m1 c2 _ _ HP Es HL L1 C2) as S1.
     assert (estep_ok (env_put e sid ms1 c2) (env_insert_comps (env_put e sid ms1 c2) av ent cs)
-                     (comps_ins (env_put e sid ms1 c2) cs) (comps_rets (env_put e sid ms1 c2) av ent cs)) as S2.
+                     (comps_ins (env_put e sid ms1 c2) cs) []) as S2.
     { apply IH; [exact (proj1 S1)|]. intros s x Hin. cbn [env_put se_stores]. rewrite find_add.
       destruct (N.eq_dec sid s); [discriminate|]. apply (Hreg s x). right. exact Hin. }
     assert (comps_ins (env_put e sid ms1 c2) cs = comps_ins e cs) as Ec.
     { unfold comps_ins. apply flat_map_ext. intros [s x]. cbn [fst snd env_put se_stores]. rewrite find_add.
       destruct (N.eq_dec sid s) as [<-|]; [|reflexivity]. rewrite Es. unfold tnorm. rewrite U. reflexivity. }
     rewrite Ec in S2.
-    exact (estep_trans e _ _ [fst (tnorm ms v)] _ (comps_ins e cs) _ S1 S2).
+    exact (estep_trans e _ _ [fst (tnorm ms v)] [] (comps_ins e cs) [] S1 S2).
 Qed.
 
 (* purge: the components of the given indices are destroyed in every storage of the table *)
